@@ -19,6 +19,8 @@ props.prop(
             'and which helper CoordinateComponent uses for world values',
     not_decided='numerical agreement (floating point), correctness of the independent-axis shortcut (dependent_axes)',
     assumptions=['numpy.linalg.inv inverts'])
+props.also('C15',
+           'that index arrays are broadcast against each other before the transformation; C order of the flatten / reshape pairs in the coordinate helpers')
 
 AFF = 'glue.core.coordinates.AffineCoordinates'
 
